@@ -12,7 +12,8 @@ Inductive piece :=
 | PLit (b : string)                       (* extend(b"..") / push(b'.') / the literal parts of format! *)
 | PDec (var comp : string)                (* <var>[.start|.end].to_string() *)
 | PKw (table var : string)                (* match <var> { T::A => "KW", .. } *)
-| PQuoted (var : string).                 (* quoted_string(<var>).unwrap() *)
+| PQuoted (var : string)                  (* quoted_string(<var>).unwrap() *)
+| PUnknown (why : string).                (* a body the translator does not recognise *)
 
 Record trans := mk_trans { t_ty : string; t_from : string; t_meth : string;
                            t_params : list (string * string); t_pieces : list piece; t_to : string }.
@@ -50,6 +51,7 @@ Definition eval_piece (kw : kwtables) (env : list (string * carg)) (p : piece) :
     | Some (AStr s) => match quoted_string s with QOk q => Some q | _ => None end
     | _ => None
     end
+  | PUnknown _ => None
   end.
 
 Fixpoint emit (kw : kwtables) (env : list (string * carg)) (ps : list piece) : option (list byte) :=
@@ -158,25 +160,25 @@ Definition ref_ctors : list ctor :=
    mk_ctor "uid_fetch" [] [PLit "UID FETCH "] "FetchCommand" "Empty" ""].
 
 Definition ref_trans : list trans :=
-  [mk_trans "SelectCommand" "NoParams" "cond_store" [] [PLit " (CONDSTORE"] "Params";
+  [mk_trans "FetchCommand" "Attributes" "attr" [("attr", "Attribute")] [PLit " "; PKw "Attribute" "attr"] "Attributes";
+   mk_trans "FetchCommand" "Attributes" "changed_since" [("seq", "u64")] [PLit ") (CHANGEDSINCE "; PDec "seq" ""; PLit ")"] "ChangedSince";
    mk_trans "FetchCommand" "Empty" "num" [("num", "u32")] [PDec "num" ""] "Messages";
    mk_trans "FetchCommand" "Empty" "range" [("range", "RangeInclusive<u32>")] [PDec "range" "start"; PLit ":"; PDec "range" "end"] "Messages";
    mk_trans "FetchCommand" "Empty" "range_from" [("range", "RangeFrom<u32>")] [PDec "range" "start"; PLit ":*"] "Messages";
+   mk_trans "FetchCommand" "Messages" "attr" [("attr", "Attribute")] [PLit " ("; PKw "Attribute" "attr"] "Attributes";
+   mk_trans "FetchCommand" "Messages" "attr_macro" [("named", "AttrMacro")] [PLit " "; PKw "AttrMacro" "named"] "Modifiers";
    mk_trans "FetchCommand" "Messages" "num" [("num", "u32")] [PLit ","; PDec "num" ""] "Messages";
    mk_trans "FetchCommand" "Messages" "range" [("range", "RangeInclusive<u32>")] [PLit ","; PDec "range" "start"; PLit ":"; PDec "range" "end"] "Messages";
    mk_trans "FetchCommand" "Messages" "range_from" [("range", "RangeFrom<u32>")] [PLit ","; PDec "range" "start"; PLit ":*"] "Messages";
-   mk_trans "FetchCommand" "Messages" "attr_macro" [("named", "AttrMacro")] [PLit " "; PKw "AttrMacro" "named"] "Modifiers";
-   mk_trans "FetchCommand" "Messages" "attr" [("attr", "Attribute")] [PLit " ("; PKw "Attribute" "attr"] "Attributes";
-   mk_trans "FetchCommand" "Attributes" "attr" [("attr", "Attribute")] [PLit " "; PKw "Attribute" "attr"] "Attributes";
-   mk_trans "FetchCommand" "Attributes" "changed_since" [("seq", "u64")] [PLit ") (CHANGEDSINCE "; PDec "seq" ""; PLit ")"] "ChangedSince";
-   mk_trans "FetchCommand" "Modifiers" "changed_since" [("seq", "u64")] [PLit " (CHANGEDSINCE "; PDec "seq" ""; PLit ")"] "ChangedSince"].
+   mk_trans "FetchCommand" "Modifiers" "changed_since" [("seq", "u64")] [PLit " (CHANGEDSINCE "; PDec "seq" ""; PLit ")"] "ChangedSince";
+   mk_trans "SelectCommand" "NoParams" "cond_store" [] [PLit " (CONDSTORE"] "Params"].
 
 Definition ref_finals : list final :=
-  [mk_final "SelectCommand" "NoParams" [] "Some(State::Selected)";
-   mk_final "SelectCommand" "Params" [PLit ")"] "Some(State::Selected)";
-   mk_final "FetchCommand" "Attributes" [PLit ")"] "None";
+  [mk_final "FetchCommand" "Attributes" [PLit ")"] "None";
+   mk_final "FetchCommand" "ChangedSince" [] "None";
    mk_final "FetchCommand" "Modifiers" [] "None";
-   mk_final "FetchCommand" "ChangedSince" [] "None"].
+   mk_final "SelectCommand" "NoParams" [] "Some(State::Selected)";
+   mk_final "SelectCommand" "Params" [PLit ")"] "Some(State::Selected)"].
 
 Definition ref_machine : machine := mk_machine ref_ctors ref_trans ref_finals ref_kw.
 
@@ -343,9 +345,15 @@ Definition read_number (l : list byte) : option (N * list byte) :=
 
 Definition read_item (l : list byte) : option (set_item * list byte) :=
   match read_number l with
-  | Some (a, 58 :: 42 :: r) => Some (SFrom a, r)
-  | Some (a, 58 :: r) => match read_number r with Some (b, r') => Some (SRange a b, r') | None => None end
-  | Some (a, r) => Some (SNum a, r)
+  | Some (a, c1 :: r1) =>
+    if c1 =? 58 then
+      match r1 with
+      | c2 :: r2 => if c2 =? 42 then Some (SFrom a, r2)
+                    else match read_number r1 with Some (b, r') => Some (SRange a b, r') | None => None end
+      | [] => None
+      end
+    else Some (SNum a, c1 :: r1)
+  | Some (a, []) => Some (SNum a, [])
   | None => None
   end.
 
@@ -354,11 +362,13 @@ Fixpoint read_more (fuel : nat) (l : list byte) : option (list set_item * list b
   | O => None
   | S f =>
     match l with
-    | 44 :: r => match read_item r with
-                 | Some (i, r') => match read_more f r' with Some (is, r'') => Some (i :: is, r'') | None => None end
-                 | None => None
-                 end
-    | _ => Some ([], l)
+    | c :: r => if c =? 44 then
+                  match read_item r with
+                  | Some (i, r') => match read_more f r' with Some (is, r'') => Some (i :: is, r'') | None => None end
+                  | None => None
+                  end
+                else Some ([], l)
+    | [] => Some ([], l)
     end
   end.
 
@@ -386,22 +396,26 @@ Fixpoint read_attrs (fuel : nat) (l : list byte) : option (list string * list by
   | O => None
   | S f =>
     match l with
-    | 32 :: r => match read_kw "Attribute" r with
-                 | Some (a, r') => match read_attrs f r' with Some (as_, r'') => Some (a :: as_, r'') | None => None end
-                 | None => None
-                 end
-    | 41 :: r => Some ([], r)
-    | _ => None
+    | c :: r => if c =? 32 then
+                  match read_kw "Attribute" r with
+                  | Some (a, r') => match read_attrs f r' with Some (as_, r'') => Some (a :: as_, r'') | None => None end
+                  | None => None
+                  end
+                else if c =? 41 then Some ([], r) else None
+    | [] => None
     end
   end.
 
 Definition read_items (l : list byte) : option (items * list byte) :=
   match l with
-  | 40 :: r => match read_kw "Attribute" r with
-               | Some (a, r') => match read_attrs (S (List.length r')) r' with Some (more, r'') => Some (IAttrs a more, r'') | None => None end
-               | None => None
-               end
-  | _ => match read_kw "AttrMacro" l with Some (m, r) => Some (IMacro m, r) | None => None end
+  | c :: r =>
+    if c =? 40 then
+      match read_kw "Attribute" r with
+      | Some (a, r') => match read_attrs (S (List.length r')) r' with Some (more, r'') => Some (IAttrs a more, r'') | None => None end
+      | None => None
+      end
+    else match read_kw "AttrMacro" l with Some (m, r) => Some (IMacro m, r) | None => None end
+  | [] => None
   end.
 
 Fixpoint strip (p l : list byte) : option (list byte) :=
@@ -415,7 +429,10 @@ Definition read_cs (l : list byte) : option (option N) :=
   match l with
   | [] => Some None
   | _ => match strip (bs " (CHANGEDSINCE ") l with
-         | Some r => match read_number r with Some (n, [41]) => Some (Some n) | _ => None end
+         | Some r => match read_number r with
+                     | Some (n, [c]) => if c =? 41 then Some (Some n) else None
+                     | _ => None
+                     end
          | None => None
          end
   end.
@@ -427,11 +444,13 @@ Definition read_fetch (l : list byte) : option fetch_req :=
     match read_item l2 with
     | Some (f, l3) =>
       match read_more (S (List.length l3)) l3 with
-      | Some (more, 32 :: l4) =>
-        match read_items l4 with
-        | Some (it, l5) => match read_cs l5 with Some cs => Some (mk_fetch_req uid f more it cs) | None => None end
-        | None => None
-        end
+      | Some (more, c :: l4) =>
+        if c =? 32 then
+          match read_items l4 with
+          | Some (it, l5) => match read_cs l5 with Some cs => Some (mk_fetch_req uid f more it cs) | None => None end
+          | None => None
+          end
+        else None
       | _ => None
       end
     | None => None
